@@ -24,7 +24,7 @@ CtxsNoGit == {<<>>, <<"plain">>, <<"plain", "plain">>, <<"LICENSES">>, <<"plain"
               <<"subprojects", "plain", "plain">>, <<"plain", "subprojects", "plain">>, <<"symlinkdir">>,
               <<"plain", "symlinkdir">>}
 CtxsGit == CtxsNoGit \cup {<<"ignoreddir">>, <<"ignoreddir", "plain">>, <<"plain", "ignoreddir">>, <<"untrackeddir">>,
-                           <<"submodule">>, <<"submodule", "plain">>, <<"subprojects", "submodule">>}
+                           <<"submodule">>, <<"submodule", "plain">>, <<"subprojects", "submodule">>, <<"plain", "submodule">>}     \* (a submodule below a plain directory: the project root may be that directory)
 WantsGit == {"tracked", "untracked", "ignore-exact", "ignore-name", "ignore-then-negate", "ignore-but-tracked"}
 
 VARIABLES nodes, opts, phase, step
